@@ -228,7 +228,53 @@ func runC15(tier string) int {
 			}
 		}
 	})
+	// A second script of the file is named like a sub-label the first script could generate (S_1 .. S_9). Wherever the
+	// output is still a valid file (every label defined once), the second script is a script: exported unless (local).
+	tmpl := seqTemplates()
+	shadowDone := r.Parallel(uint64(len(tmpl))*9*2, func(w int, idx uint64) {
+		t, n, order := tmpl[idx/18], int(idx/2%9)+1, int(idx%2)
+		first := model.Print([]*model.Script{{Name: "S", Body: []model.Stmt{mcmd("a"), t(1), mcmd("z")}}})
+		for _, mod := range c15Mods {
+			second := fmt.Sprintf("script%s S_%d {\n\tlock\n}\n", mod, n)
+			src := first + second
+			if order == 1 {
+				src = second + first
+			}
+			for _, opt := range []bool{true, false} {
+				res := comp.Compile(src, comp.Opts{Optimize: opt})
+				if res.Err != nil || res.Panic != "" {
+					continue
+				}
+				defs := map[string]int{}
+				exported := map[string]bool{}
+				for _, l := range asmLines(res.Out) {
+					if l.isLabel {
+						defs[l.name]++
+						exported[l.name] = l.global
+					}
+				}
+				valid := true
+				for _, c := range defs {
+					valid = valid && c == 1
+				}
+				name := fmt.Sprintf("S_%d", n)
+				if !valid || defs[name] != 1 {
+					continue // the clash itself is C20's / C04's business
+				}
+				r.Add("evaluations", 1)
+				r.Add("scripts_named_like_sublabels", 1)
+				if want := c15Global(mod, true); exported[name] != want || !exported["S"] {
+					s2 := src
+					r.Report(harness.Violation{Sig: "C15:script-named-like-sublabel", Summary: fmt.Sprintf("script%s %s next to script S (optimize=%v): exported=%v, want %v (S exported=%v)\n  source: %q", mod, name, opt, exported[name], want, exported["S"], src), Replay: map[string]interface{}{"source": src, "optimize": opt, "output": res.Out},
+						Recheck: func() bool { return comp.Compile(s2, comp.Opts{Optimize: opt}).Out == res.Out }})
+				}
+			}
+		}
+	})
+	if !shadowDone {
+		r.NotExhaustive("scripts named like sub-labels not completed")
+	}
 	r.Assume("documented defaults: script, text, mapscripts global; movement, mart local; labels inside scripts local; every generated label local")
 	return r.Finish(r.Get("evaluations"), r.Get("nontrivial"),
-		"the full finite product {script, text, movement, mart, mapscripts} x {no modifier, (global), (local)} (3^5) x in-script label modifier (3) x 14 statement orders (every rotation, forwards and backwards; two moves() lists occur twice in the file; two multi-part texts end in the lines of shorter texts) x optimize on/off x which alternative of two poryswitches (the same label name with different modifiers in the two cases) is compiled x 3 sets of names for the explicit data statements (plain, and shaped like generated hoisted / sub-label / map-script names of scripts that do not exist); the file forces every generated label kind (sub-labels of if/while/switch, hoisted text and movement, inline map script, table, table inline script and their hoisted data); every label definition of the output is classified by the naming scheme and must have the expected scope; plus every identifier-like literal of the compiler's own source as the name of each statement kind and of a label, under every modifier; plus every program of the control-flow families (C01 / C03 / C04 bounds) x script modifier x optimize: script label per modifier, every other label local; non-trivial = at least one explicit modifier")
+		"the full finite product {script, text, movement, mart, mapscripts} x {no modifier, (global), (local)} (3^5) x in-script label modifier (3) x 14 statement orders (every rotation, forwards and backwards; two moves() lists occur twice in the file; two multi-part texts end in the lines of shorter texts) x optimize on/off x which alternative of two poryswitches (the same label name with different modifiers in the two cases) is compiled x 3 sets of names for the explicit data statements (plain, and shaped like generated hoisted / sub-label / map-script names of scripts that do not exist); the file forces every generated label kind (sub-labels of if/while/switch, hoisted text and movement, inline map script, table, table inline script and their hoisted data); every label definition of the output is classified by the naming scheme and must have the expected scope; plus every identifier-like literal of the compiler's own source as the name of each statement kind and of a label, under every modifier; plus every program of the control-flow families (C01 / C03 / C04 bounds) x script modifier x optimize: script label per modifier, every other label local; plus, for every statement template, a second script named S_1 .. S_9 (like a sub-label of the first) before / after it under every modifier: wherever every label is still defined once it is exported like any script; non-trivial = at least one explicit modifier")
 }
